@@ -104,7 +104,16 @@ def install() -> None:
         return
     _installed = True
     logging.disable(logging.CRITICAL)
+    from . import probes
+    probes.install()
     from ipv8.keyvault.private.openssl import OpenSSLSK
+    import json
+    import os
+    pool_path = os.path.join(os.path.dirname(os.path.dirname(os.path.abspath(__file__))), "keys", "pool.json")
+    if os.path.exists(pool_path):
+        with open(pool_path) as f:
+            for curve, keys in json.load(f).items():
+                KEY_POOL[curve] = [bytes.fromhex(k) for k in keys]
     _ORIG_GENERATE = OpenSSLSK.generate
     OpenSSLSK.generate = staticmethod(_generate)
 
@@ -124,6 +133,10 @@ def reset_for_world(world) -> None:  # noqa: ANN001
     """Reset process-global state that ipv8 mutates, so that a run does not depend on the runs before it."""
     if not _installed:
         return
+    from . import probes
+    from .net import LABEL
+    probes.reset()
+    LABEL[0] = None
     import ipv8.messaging.interfaces.lan_addresses.interfaces as lanif
     provs = lanif.get_providers()
     if len(provs) != 1 or not isinstance(provs[0], SimAddressProvider):
